@@ -12,6 +12,8 @@ package main
 // Oracle: dump(ParseStatic(render(m, p))) == dump(refStatic(m)); Services as a set.
 
 import (
+	"fmt"
+
 	"github.com/jamespfennell/gtfs"
 )
 
@@ -47,15 +49,42 @@ func c01Harness(freePresentation bool) Harness {
 	}
 }
 
+// c01Sizes: larger well-formed feeds (no cell variation): n rows per table.
+func c01Sizes(c *Ctx) {
+	k := []int{5, 9, 17, 33, 64}[c.Free("rows_per_table", 5)]
+	n := staticCounts{agencies: k, routes: k, stops: k, transfers: k, calendars: k, calendarDates: k, shapes: k / 2, shapePoints: 3, trips: k, frequencies: k, stopTimes: 3 * k}
+	m := genStaticFeedN(c, false, n, nil, nil)
+	p := genPresentation(c, false)
+	b := renderFeed(m, p)
+	c.Input(hash64(string(b)), true, func() string { return fmt.Sprintf("%d rows per table, %s", k, p) })
+	r, err, ok := parseStaticGuarded(c, b, gtfs.ParseStaticOptions{})
+	if !ok {
+		return
+	}
+	c.Steps(len(m.Tables))
+	if err != nil {
+		c.Fail("valid-feed-rejected", "ParseStatic rejected a well-formed feed: %v", err)
+		return
+	}
+	want := refStatic(m, refStaticOpts{})
+	o := staticDumpOpts{sortServices: true}
+	wd, gd := dumpStatic(want, o), dumpStatic(r, o)
+	c.Outcome(gd)
+	if wd != gd {
+		c.Fail("transcription:"+firstDiffKind(wd, gd), "result differs from the rows of the feed (%d rows per table, %s)\n%s", k, p, diffLines(wd, gd))
+	}
+	c.Witness("larger_feed")
+}
+
 func init() {
 	register(&Check{
 		ID:    "C01",
 		Level: "model_checking",
-		Rule: "well-formed feeds within k deviations of a 10-file base feed: row count of each table (0-6), every cell over its kind's alphabet (texts: space / comma+quote / non-ASCII / embedded LF / blank; all enum digits; times 00:00:00, 4:05:06, 25:10:05, 47:59:59; decimals 0, 1.5, -73.25, ' 2.5 ', 1e-3, blank; ints 0, -5, 2147483647, blank; dates incl. DST days and leap day; 5 agency zones incl. unknown), id spellings, x 9 presentation dimensions (column order, unknown column position, extra files, member order, deflate, BOM, CRLF, trailing newline, full quoting); quick k<=2; thorough k<=2 plus full presentation product (1152) x k<=1; " +
+		Rule: "well-formed feeds within k deviations of a 10-file base feed: row count of each table (0-6), every cell over its kind's alphabet (texts: space / comma+quote / non-ASCII / embedded LF / blank; all enum digits; times 00:00:00, 4:05:06, 25:10:05, 47:59:59; decimals 0, 1.5, -73.25, ' 2.5 ', 1e-3, blank; ints 0, -5, 2147483647, blank; dates incl. DST days and leap day; 5 agency zones incl. unknown), id spellings, x 9 presentation dimensions (column order, unknown column position, extra files, member order, deflate, BOM, CRLF, trailing newline, full quoting); quick k<=2, plus feeds of 5..64 rows per table x <= 2 presentation deviations; thorough additionally the full presentation product (1152) x k<=1; " +
 			"non-trivial = every distinct archive; oracle = reference interpretation of the tables",
 		Assumptions: []string{"archive/zip and the harness CSV writer are trusted as renderer", "location_type 0 with a parent is a platform, as the library's enum documents", "optional default-bearing fields are written explicitly (blank/absent is C10)"},
 		Scenarios: func(tier string) []*Scenario {
-			s := []*Scenario{{Name: "cells+presentation", Bound: 2, Run: c01Harness(false)}}
+			s := []*Scenario{{Name: "cells+presentation", Bound: 2, Run: c01Harness(false)}, {Name: "sizes", Bound: 2, Run: c01Sizes}}
 			if tier == "thorough" {
 				s = append(s, &Scenario{Name: "all-presentations-x-cell", Bound: 1, Run: c01Harness(true)})
 			}
